@@ -9,14 +9,17 @@ open Rend
 
 variable {ε : Type}
 
+/-- The request put on the wire for a store-type command: append / prepend carry no extras
+    (`writeAppendPrependCmdCommon`). -/
+def storeReq (k : SetKind) (c : SetCmd) : Req :=
+  { op := k.op, key := c.key, flags := if (k == .append || k == .prepend) then 0 else c.flags,
+    exptime := if (k == .append || k == .prepend) then 0 else c.exptime, value := c.data }
+
 /-- `handleSetCommon` after the command header was written: read the response.
     An I/O failure while reading the response header makes `readResponseHeader` return a nil
     header which `handleSetCommon` dereferences: a panic in the connection's goroutine. -/
 def store (t : Tier) (k : SetKind) (c : SetCmd) : Prog ε (HRes Unit) := do
-  -- append / prepend commands carry no extras on the wire (`writeAppendPrependCmdCommon`)
-  let noExtras := k == .append || k == .prepend
-  let r ← Prog.req t { op := k.op, key := c.key, flags := if noExtras then 0 else c.flags,
-                       exptime := if noExtras then 0 else c.exptime, value := c.data }
+  let r ← Prog.req t (storeReq k c)
   match r with
   | .io => pure (.error .panic)
   | .status s =>
